@@ -115,6 +115,14 @@ def check_muladd(ctx, dom, cfp, A, P, a, B, Q, b, cls, key, even, tag):
     if bad:
         _fail(ctx, "muladd_wrong:" + cls, even, "%s: %s.mul_add(%d, %s, %d): %s (p=%d a=%d b=%d)" % (tag, sa, a, sb, b, bad, p, cv.a, cv.b),
               dict(curve=cv.key(), P=P, Q=Q, a=a, b=b, expected=E), points.repro_head(dom) + points.show("%s.mul_add(%d, %s, %d)" % (sa, a, sb, b)))
+    else:
+        # the operands belong to the caller: after the call each still denotes the point it denoted before
+        for o, V, nm in ((A, P, "self"), (B, Q, "other")):
+            if isinstance(o, PointJacobi) and not (even and V is not None and V[1] == 0):
+                after = judge_point(o, V, p, deep=False)
+                if after and not (V is None and "expected identity" in after and even):
+                    _fail(ctx, "muladd_changes_operand:" + cls, even, "%s: after %s.mul_add(%d, %s, %d) the %s operand no longer denotes %r: %s (p=%d a=%d b=%d)" % (tag, sa, a, sb, b, nm, V, after, p, cv.a, cv.b),
+                          dict(curve=cv.key(), P=P, Q=Q, a=a, b=b), points.repro_head(dom) + points.show("%s.mul_add(%d, %s, %d)" % (sa, a, sb, b)))
 
 
 def run(ctx, name, kind, **kw):
@@ -250,14 +258,21 @@ def run(ctx, name, kind, **kw):
         Q = cv.mul(rng.randrange(2, n - 1), G)
         pairs = [(rng.randrange(1, n), rng.randrange(1, n)) for _ in range(max(3, kw["nrand"] // 2))]
         pairs += [(0, 5), (5, 0), (0, 0), (1, 1), (n - 1, n - 1), (n, 3), (3, n), (n + 1, 2 * n + 1), (-1, 1), (7, -7), (n - 1, 1), (1, n - 1)]
+        pairs += [(3, 6 * n + 1), (5, -(7 * n + 5)), (2, 23 * n + 11), (n + 2, 127 * n + 3), (9 * n + 4, 3), (-(31 * n + 1), -(31 * n + 2))]      # multipliers far outside [0, n) on either side
         for a, b in pairs[kw["si"]:: kw["sl"]]:
-            for (an, A, PA) in (("G", c.generator, G), ("plain", build(cfp, Pm, "jzr", rng, order=n), Pm), ("noorder", build(cfp, Pm, "j1", rng, order=None), Pm)):
-                cfp2 = lib.CurveFp(int(cfp.p()), int(cfp.a()), int(cfp.b()), None)      # equal curve (same p, a, b as declared), separate object, no cofactor declared
-                for (bn, B, QB) in (("plain", build(cfp, Q, "j1", rng, order=n), Q), ("scaled", build(cfp, Q, "jzr", rng, order=n), Q),
-                                    ("other_curve_object", build(cfp2, Q, "jzr", rng, order=n), Q),
-                                    ("other_curve_object_table", PointJacobi(cfp2, Q[0], Q[1], 1, n, generator=True), Q),
-                                    ("other_curve_object_opposite", build(cfp2, cv.neg(PA), "j1", rng, order=n), cv.neg(PA)),
-                                    ("legacy", Point(cfp, Q[0], Q[1], n), Q), ("same", build(cfp, PA, "jz2", rng, order=n), PA),
-                                    ("opposite", build(cfp, cv.neg(PA), "jzr", rng, order=n), cv.neg(PA)), ("inf", INFINITY, None), ("inf_copy", Point(None, None, None), None),
-                                    ("table", vk.pubkey.point, Pm)):
-                    check_muladd(ctx, dom, cfp, A, PA, a, B, QB, b, "prod.muladd", "%s|%s|%s|%s" % (fam, an, bn, "z" if a % n == 0 or b % n == 0 else "nz"), False, fam)
+            cfp2 = lib.CurveFp(int(cfp.p()), int(cfp.a()), int(cfp.b()), None)      # equal curve (same p, a, b as declared), separate object, no cofactor declared
+            a_specs = (("G", lambda: c.generator, G), ("plain", lambda: build(cfp, Pm, "jzr", rng, order=n), Pm), ("noorder", lambda: build(cfp, Pm, "j1", rng, order=None), Pm),
+                       ("noorder_scaled", lambda: build(cfp, Pm, "jzr", rng, order=None), Pm),
+                       ("identity_z0", lambda: PointJacobi(cfp, rng.randrange(1, p), rng.randrange(1, p), 0, n), None), ("identity_z0_noorder", lambda: PointJacobi(cfp, 1, 1, 0), None))
+            for (an, mkA, PA) in a_specs:
+                b_specs = (("plain", lambda: build(cfp, Q, "j1", rng, order=n), Q), ("scaled", lambda: build(cfp, Q, "jzr", rng, order=n), Q),
+                           ("other_curve_object", lambda: build(cfp2, Q, "jzr", rng, order=n), Q),
+                           ("other_curve_object_table", lambda: PointJacobi(cfp2, Q[0], Q[1], 1, n, generator=True), Q),
+                           ("other_curve_object_opposite", lambda: build(cfp2, cv.neg(PA), "j1", rng, order=n) if PA is not None else PointJacobi(cfp2, 3, 5, 0, n), cv.neg(PA)),
+                           ("legacy", lambda: Point(cfp, Q[0], Q[1], n), Q), ("same", lambda: build(cfp, PA, "jz2", rng, order=n) if PA is not None else PointJacobi(cfp, 2, 7, 0, n), PA),
+                           ("opposite", lambda: build(cfp, cv.neg(PA), "jzr", rng, order=n) if PA is not None else PointJacobi(cfp, 9, 9, 0), cv.neg(PA)),
+                           ("inf", lambda: INFINITY, None), ("inf_copy", lambda: Point(None, None, None), None), ("table", lambda: vk.pubkey.point, Pm),
+                           ("table_scaled_fresh", lambda: lib.mk_jac(cfp, Q, rng.randrange(2, p), n, True), Q))
+                for (bn, mkB, QB) in b_specs:
+                    # both operands built afresh for every call: an earlier call leaves its operands rescaled
+                    check_muladd(ctx, dom, cfp, mkA(), PA, a, mkB(), QB, b, "prod.muladd", "%s|%s|%s|%s" % (fam, an, bn, "z" if a % n == 0 or b % n == 0 else "nz"), False, fam)
